@@ -407,12 +407,19 @@ def r3(F, rep):
         rep.add("C09-R3", "key_lookup|find|%s.find(%s)" % (X.text(r, kl), X.text(a, kl)), kl.loc(c),
                 "search of `%s` in `%s`: both %slower-cased" % (X.text(a, kl), X.text(r, kl), "" if ok else "NOT "), ok, func=kl.q)
     ck = F.one("colvarparse::check_keywords")
-    cmps = [c for c in ck.walk() if c["k"] == "CXXOperatorCallExpr" and c.get("op") == "==" and
-            any(X.mentions(a, lambda x: x["k"] == "DeclRefExpr" and x.get("n") == "ki") for a in X.call_args(c))]
+    # the comparison inside the loop over the registry; its loop variable is the registry side
+    cmps, loopvars = [], set()
+    for c in ck.walk():
+        if c["k"] == "CXXOperatorCallExpr" and c.get("op") == "==":
+            for a in ck.ancestors(c):
+                if a["k"] == "ForStmt" and a["c"][0] is not None and X.mentions(a["c"][0], lambda x: x["k"] == "MemberExpr" and x.get("n") == "allowed_keywords"):
+                    cmps.append(c)
+                    loopvars |= {v["d"] for v in ck.walk(a["c"][0]) if v["k"] == "VarDecl"}
+                    break
     if not cmps:
         raise AnalysisBroken("check_keywords: comparison against the registry not found")
     for c in cmps:
-        cand = [a for a in X.call_args(c) if not X.mentions(a, lambda x: x["k"] == "DeclRefExpr" and x.get("n") == "ki")]
+        cand = [a for a in X.call_args(c) if not X.mentions(a, lambda x: x["k"] == "DeclRefExpr" and x.get("d") in loopvars)]
         ok = bool(cand) and lowered(ck, cand[0])
         # the lowering assignment must precede the comparison
         rep.add("C09-R3", "check_keywords|compare", ck.loc(c), "candidate keyword is %slower-cased before comparison with the registry" % (
